@@ -249,7 +249,33 @@ pub fn gen_universe(w: &World, rng: &mut Rng) -> Universe {
         .iter()
         .filter(|e| !e.name.starts_with("fam:mix_all"))
         .collect();
-    let e = *rng.pick(&fam);
+    let e: corpus::Entry = {
+        let f = *rng.pick(&fam);
+        let mut chosen = corpus::Entry {
+            name: f.name.clone(),
+            reg: f.reg.clone(),
+        };
+        if rng.chance(1, 4) {
+            // a generated registry, de-duplicated; used as probe only if it generates cleanly
+            let s = rng.next_u64();
+            let r = crate::gen::random_registry(&mut Rng::new(s));
+            let usable = entropy::execution(3, || {
+                let r2 = observe::dedup(&r).ok()?;
+                let settings = Switches::standard().settings(Builders::new());
+                observe::gen_tokens(&r2, &settings).ok().map(|_| r2)
+            })
+            .0
+            .ok()
+            .flatten();
+            if let Some(r2) = usable {
+                chosen = corpus::Entry {
+                    name: format!("gen:{s:016x}+dedup"),
+                    reg: r2,
+                };
+            }
+        }
+        chosen
+    };
     let by_path = refmodel::ids_by_path(&e.reg);
     let single: Vec<String> = refmodel::named_paths(&e.reg)
         .into_iter()
